@@ -409,7 +409,15 @@ impl Gen {
             }
             1 => (Pat::Underscore, self.in_frame(|g| g.conditional(|g| g.gen_int(d)))),
             _ => {
-                let e = self.fresh();
+                // the catch clause binds in its own fresh scope: the same name may be used by several try
+                // statements of one scope (shadowing an existing variable is left to the C14 templates: the typed generator would then read the caught error VALUE through the shadowed name, and error values are not compared)
+                let e = match self.rng.below(4) {
+                    0 => {
+                        self.feat("catch-name-reused");
+                        "cerr".to_string()
+                    }
+                    _ => self.fresh(),
+                };
                 let body = self.in_frame(|g| {
                     g.conditional(|g| {
                         let a = g.gen_int(d);
@@ -818,7 +826,7 @@ impl Gen {
     // ---------------------------------------------------------------- statements
     pub fn gen_stmt(&mut self, d: u32) -> Expr {
         self.budget -= 1;
-        let choice = if self.budget <= 0 { self.rng.below(4) } else { self.rng.below(34) };
+        let choice = if self.budget <= 0 { self.rng.below(4) } else { self.rng.below(35) };
         match choice {
             0 | 1 => {
                 let x = self.fresh();
@@ -956,6 +964,24 @@ impl Gen {
                     false,
                 );
                 Expr::Seq(vec![Expr::Declare(Pat::Ident(c.clone()), b(Expr::Int(0))), Expr::While(b(cond), b(body))], true)
+            }
+            34 => {
+                // the VALUE of a short-circuit form is the deciding operand itself (null / "" / [] / 0 on the
+                // left of `and`, a truthy left of `or`, a non-null left of `coalesce`)
+                self.feat("short-circuit-values");
+                let pr = |e: Expr| Expr::Call(b(Expr::Ident("print".into())), vec![e]);
+                let k = self.small_int();
+                let lefts = vec![Expr::Null, Expr::Str(String::new()), Expr::List(vec![]), Expr::Int(0), Expr::Int(k), Expr::Str("s".into()), Expr::List(vec![Expr::Int(0)])];
+                let mut xs = vec![];
+                for l in lefts {
+                    let form = match self.rng.below(3) {
+                        0 => Expr::And(b(l), b(Expr::Int(5))),
+                        1 => Expr::Or(b(l), b(Expr::Int(5))),
+                        _ => Expr::Coalesce(b(l), b(Expr::Int(5))),
+                    };
+                    xs.push(pr(Expr::List(vec![form])));
+                }
+                Expr::Seq(xs, true)
             }
             33 if d > 0 && !self.no_self_shadow => {
                 // a scope that is EMPTY when a nested scope creates closures, and only later receives the
